@@ -14,6 +14,9 @@ type HashLiteral struct {
 
 	// Pairs stores the name/value sets of the hash-content
 	Pairs map[Expression]Expression
+
+	// Keys holds the keys of Pairs, in the order they were written.
+	Keys []Expression
 }
 
 func (hl *HashLiteral) expressionNode() {}
